@@ -699,6 +699,13 @@ func (w *world) doIter(i int) {
 		if w.r.Intn(2) == 0 {
 			opts.GTE = e.GetHash()
 			gteS = w.al(e)
+			// both lower bounds at once (no extra PRNG draw, so the histories of a seed are unchanged): the
+			// code ends at GTE and drops it because GT is set (Props/C15 iter_range_gte_gt)
+			if len(rng) >= 2 && (len(all)+len(rng))%3 == 0 {
+				e2 := rng[(len(all)*7+len(rng))%len(rng)]
+				opts.GT = e2.GetHash()
+				gtS = w.al(e2)
+			}
 		} else {
 			opts.GT = e.GetHash()
 			gtS = w.al(e)
